@@ -161,7 +161,7 @@ func (pnf *PrevNextFinder) FindOutlink(root *html.Node, pageURL *nurl.URL, findN
 		// since Go can't compute stylesheet. NEED-COMPUTE-CSS.
 
 		// Remove url anchor and then trailing '/' from link's href.
-		tmp, err := nurl.Parse(linkHref)
+		tmp, err := nurl.Parse(stringutil.EscapeInvalidURLChars(linkHref))
 		if err != nil {
 			pnf.appendDebugStrForLink(link, "ignored: can't be cleaned")
 			continue
